@@ -54,15 +54,24 @@ func (b bScen) scenario() *sched.Scenario {
 			for _, op := range b.prefix {
 				s.Apply(op)
 			}
+			// The event is prepared (identifiers chosen, monitors primed) before the
+			// threads start and evaluated after they have both finished, so that P
+			// contains nothing but the delivery itself: monitor reads would only add
+			// scheduling points that are equivalent to "timer first" / "timer last".
+			e := s.mkEvent(b.ev)
+			s.hist = append(s.hist, "||"+b.ev)
+			s.histState = append(s.histState, s.state())
+			wasOpened := s.m.IsOpened()
+			s.begin(e)
+			s.concurrent = true
 			x.Thread("P", func() {
 				x.Advance(restart)
-				s.concurrent = true
-				st := s.Apply(b.ev)
-				x.Obs("P:%s=%s", b.ev, st)
+				s.deliver(e)
+				x.Obs("P:%s", b.ev)
 			})
 			x.IdleThread("epilogue", func() {
-				// packets sent by the timer thread after P finished
-				s.end(event{op: "TO"}, false)
+				// monitors over everything P and the timer thread sent
+				s.end(e, wasOpened)
 				s.concurrent = false
 				s.crRun, s.trRun = 0, 0
 				d.coarse, d.armed, d.ops = s.coarse(), s.timerArmed(), s.Ops()
